@@ -333,13 +333,20 @@ def probe_all():
             break
     else:
         raise ValueError('action probing did not reach a fixpoint')
-    _cache.update(prods=prods, table=table, nkinds=nkinds, elemk=elemk, nonterms=nonterms)
+    def probe(idx, combo):
+        res, vals = run(idx, combo, elemk)
+        if res[0] == 'raise':
+            return ('raise', res[1], res[2])
+        return describe(res[1], vals)
+    _cache.update(prods=prods, table=table, nkinds=nkinds, elemk=elemk, nonterms=nonterms, probe=probe)
     return _cache
 
 
 # ---- Lean emission ---------------------------------------------------------
 
 def lean_pos(p):
+    if p[0] == 'slots' and p[1] == p[2] == p[3] == p[4]:
+        return '(.at %d %d)' % (p[1], p[5])
     if p[0] == 'unset':
         return '.unset'
     if p[0] == 'ofNode':
@@ -378,7 +385,11 @@ def lean_desc(d):
         _, kind, attrs, pos, tokmap, tmof = d
         la = lean_list(['(%s, %s)' % (lean_str(k), lean_desc(v)) for k, v in attrs])
         lt = []
+        std = []
         for src, pd in tokmap:
+            if src[0] == 'slotText' and pd == ('slots', src[1], src[1], src[1], src[1], 0) and not lt:
+                std.append(src[1])
+                continue
             if src[0] == 'slotText':
                 s = '(.slotText %d)' % src[1]
             elif src[0] == 'commas':
@@ -386,7 +397,7 @@ def lean_desc(d):
             else:
                 s = '(.const %s)' % lean_str(src[1])
             lt.append('(%s, %s)' % (s, lean_pos(pd)))
-        return '(.node %s %s %s %s %s)' % (lean_str(kind), la, lean_pos(pos), lean_list(lt),
+        return '(.node %s %s %s %s %s %s)' % (lean_str(kind), la, lean_pos(pos), lean_list([str(x) for x in std]), lean_list(lt),
                                           ('(some %d)' % tmof) if tmof is not None else 'none')
     raise ValueError(d)
 
@@ -414,15 +425,39 @@ def generate():
         nk = c['nkinds']
         default = tuple((nk[sym][0] if sym in c['nonterms'] else 'str') for sym in rhs)
         d0 = dict(rows)[default]
-        exc = []
-        for combo, d in sorted(rows, key=lambda r: repr(r[0])):
+        singles = {}
+        for combo, d in rows:
             if combo == default or d == d0:
                 continue
             diff = [i for i, (x, y) in enumerate(zip(combo, default)) if x != y]
             assert len(diff) == 1
-            exc.append('(%d, %s, %s)' % (diff[0] + 1, lean_kind(combo[diff[0]]), lean_desc(d)))
+            singles.setdefault(diff[0], {}).setdefault(repr(d), (d, []))[1].append(combo[diff[0]])
+        # behaviour classes per slot: kinds with the same result descriptor
+        classes = {i: [(sorted(ks, key=repr), d) for d, ks in singles[i].values()] for i in singles}
+        exc = []
+        if len(classes) >= 2:
+            # several slots influence the result: probe the product of their behaviour classes
+            slots = sorted(classes)
+            choices = [[None] + classes[i] for i in slots]
+            for pick in itertools.product(*choices):
+                combo = list(default)
+                conds = []
+                for i, cl in zip(slots, pick):
+                    if cl is not None:
+                        combo[i] = cl[0][0]
+                        conds.append((i + 1, cl[0]))
+                if len(conds) < 2:
+                    continue
+                d = c['probe'](idx, tuple(combo))
+                exc.append((conds, d))
+        for i in sorted(classes):
+            for ks, d in classes[i]:
+                exc.append(([(i + 1, ks)], d))
+        exc.sort(key=lambda e: -len(e[0]))
+        lexc = ['(%s, %s)' % (lean_list(['(%d, %s)' % (i, lean_list([lean_kind(k) for k in ks])) for i, ks in conds]),
+                             lean_desc(d)) for conds, d in exc]
         out.append('def a%d : Entry := { default := %s, result := %s, exceptions := %s, probed := true }' % (
-            idx, lean_list([lean_kind(k) for k in default]), lean_desc(d0), lean_list(exc)))
+            idx, lean_list([lean_kind(k) for k in default]), lean_desc(d0), lean_list(lexc)))
     CH = 40
     chunks = []
     for cidx in range(0, len(prods), CH):
